@@ -1,7 +1,7 @@
 (* proofs/C09Main.v — C09 assembled: the model of process.Typecheck = the caller/worker protocol
    (TcDriver) run on the worker's computation tc_program p (TcTop). *)
 Require Import Grits.Base Grits.STypes Grits.Forms Grits.Infer Grits.TcDeps Grits.Expand Grits.Tc Grits.TcTop
-               Grits.TcDriver Grits.proofs.TcEnv Grits.proofs.TcTotal Grits.proofs.TcDriverProofs.
+               Grits.TcDriver Grits.proofs.TcEnv Grits.proofs.TcTotal Grits.proofs.TcDriverProofs Grits.proofs.TcInferFuel.
 
 (* the two facts about package `types` the proof relies on (C08 and mode inference) *)
 Definition equal_terminates_stmt : Prop := forall D s t,
@@ -9,10 +9,21 @@ Definition equal_terminates_stmt : Prop := forall D s t,
 Definition add_missing_total_stmt : Prop := forall D t,
   sanity_typedefs D = Ok true -> exists t', add_missing D t = Ok t'.
 
+(* the second one is proved (proofs/TcInferFuel.v): infer_fuel suffices *)
+Lemma add_missing_total_holds : add_missing_total_stmt.
+Proof. intros D t _. apply add_missing_total. Qed.
+
+Theorem tc_total_1 : equal_terminates_stmt -> forall p, parsed p ->
+  (forall w, typecheck p <> RejectInternal w) /\ (forall w, typecheck p <> Diverge w).
+Proof. intros H. exact (tc_total H add_missing_total_holds). Qed.
+Theorem tc_total_all_1 : equal_terminates_stmt -> forall p,
+  (forall w, typecheck p <> RejectInternal w) /\ (forall w, typecheck p <> Diverge w).
+Proof. intros H. exact (tc_total_all H add_missing_total_holds). Qed.
+
 (* what process.Typecheck returns to its caller, for the schedule-independent part *)
 Definition typecheck_returns (p : program) : option goerr := returns (tc_program p).
 
-Theorem typecheck_total : equal_terminates_stmt -> add_missing_total_stmt -> forall p, parsed p ->
+Theorem typecheck_total : equal_terminates_stmt -> forall p, parsed p ->
   (* the worker's computation is a verdict *)
   (forall w, typecheck p <> RejectInternal w) /\ (forall w, typecheck p <> Diverge w) /\
   (* and the protocol delivers exactly that verdict, on every schedule, leaving nothing behind *)
@@ -29,7 +40,7 @@ Theorem typecheck_total : equal_terminates_stmt -> add_missing_total_stmt -> for
       (wrk s = WDoneSent -> (exists s', step (tc_program p) s LExit s') /\
                             forall l s', step (tc_program p) s l s' -> l = LExit \/ (l = LRecv /\ wrk s' = WDoneSent)).
 Proof.
-  intros Heq Ham p Hp.
+  intros Heq p Hp. pose proof add_missing_total_holds as Ham.
   pose proof (tc_program_safe Heq Ham p) as Hsafe.
   destruct (tc_total Heq Ham p Hp) as [Hni Hnd].
   split; [exact Hni|]. split; [exact Hnd|].
